@@ -315,27 +315,33 @@ structure RC where
   sig : Option Sig := none
 deriving Repr, Inhabited
 
+/-- the argument values of a RUN: none, one value, or the elements of a comma list -/
+def runArgs (ctx : Ctx) (pos : Pos) (st : St) : Option Str → R (List Val)
+  | none => .ok []
+  | some vs =>
+    if (strip vs).isEmpty then .ok [] else
+    evalIn ctx pos st vs >>= fun v =>
+    match v with
+    | .list l => .ok l
+    | v => .ok [v]
+
+/-- the state a function body starts in: a child of the caller's state with the arguments bound to
+    the parameters in order -/
+def bindParams (st : St) (fn : Func) (vals : List Val) : St :=
+  let cst := enterSt st
+  { cst with env := { cst.env with
+      user := (fn.params.zip vals).foldl (fun u pv => assocSet u pv.1 pv.2) cst.env.user } }
+
 /-- what `Run.run_compile` works out before it creates the stack: the function and the state its
-    body starts in (arguments bound to the parameters in order) -/
-def runPre (ctx : Ctx) (pos : Pos) (a : Arg) (st : St) : R (Func × St) := do
-  let (fname, varStr) := breakArg a.str
-  let vals ← match varStr with
-    | none => pure []
-    | some vs =>
-      if (strip vs).isEmpty then pure [] else do
-        let v ← evalIn ctx pos st vs
-        match v with
-        | .list l => pure l
-        | v => pure [v]
-  match assocGet st.env.funcs fname with
+    body starts in -/
+def runPre (ctx : Ctx) (pos : Pos) (a : Arg) (st : St) : R (Func × St) :=
+  runArgs ctx pos st (breakArg a.str).2 >>= fun vals =>
+  match assocGet st.env.funcs (breakArg a.str).1 with
   | none => raise ctx pos st .varIsNonExistent
   | some fn =>
     if fn.params.length != vals.length then raise ctx pos st .invalidArguments
     else if vals.any isListVal then .oom "a list bound to a parameter (aliasing is not modelled)"
-    else
-      let cst := enterSt st
-      .ok (fn, { cst with env := { cst.env with
-        user := (fn.params.zip vals).foldl (fun u pv => assocSet u pv.1 pv.2) cst.env.user } })
+    else .ok (fn, bindParams st fn vals)
 
 /-- the file a function body runs in -/
 def funcFile (ctx : Ctx) (fn : Func) : Option Path :=
@@ -693,12 +699,17 @@ def isThisCommand (c : ClsDesc) (word : Str) (hasBlock : Bool) : Bool :=
 def dispatch (word : Str) (hasBlock : Bool) : Option ClsDesc :=
   Generated.palette.find? (fun c => isThisCommand c word hasBlock)
 
+/-- a non-empty list follows the command line -/
+def hasBlockOf : Option (List Node) → Bool
+  | some b => !b.isEmpty
+  | none => false
+
 /-- one command line of `Stack.run` -/
 def stepCmd (child : Option ChildFn) (ctx : Ctx) (l : PreLine) (block : Option (List Node)) (st : St) : Res :=
   match splitWs1 l.content with
   | none => .crash "IndexError"
   | some (word, arg) =>
-    let hasBlock := match block with | some b => !b.isEmpty | none => false
+    let hasBlock := hasBlockOf block
     match dispatch word hasBlock with
     | some c =>
       if c.isBlock then compileBlock child ctx c word l.num arg (block.getD []) hasBlock st
